@@ -52,6 +52,9 @@ def _grid(draw, tier='quick'):
   cfg = draw(gens.grid_configs(kind='modal_only', max_m=10 if tier == 'quick' else 32, max_slack=2,
                                impls=('real',) if layout == 'real' else ('fast',)))
   cfg['L'] = max(cfg['L'], 2)
+  # the filters depend on the total wavenumber only: also reach large truncations cheaply (modal-only grids), so that
+  # l(l+1)**order passes 2**63 (integer overflow hazards) and the top of realistic spectra (T42 .. TL255) is covered
+  cfg['L'] += draw(st.sampled_from([0, 0, 0, 6, 28] if tier == 'quick' else [0, 0, 0, 6, 28, 100, 230]))
   if layout == 'fast_padded':
     cfg['bsm'] = draw(st.sampled_from([4, 2, 3, 8]))
     if cfg['L'] % cfg['bsm'] == 0:
@@ -68,7 +71,7 @@ def _params(draw, name=None):
     p['order'] = draw(st.one_of(st.integers(1, 20), st.sampled_from([1, 2, 18])))
     p['cutoff'] = draw(st.one_of(st.sampled_from([0.0, 0.0, 0.5, 0.95]), st.floats(0.0, 0.9375, allow_nan=False, width=32)))
   else:
-    p['order'] = draw(st.integers(1, 6))
+    p['order'] = draw(st.one_of(st.integers(1, 6), st.sampled_from([4, 8, 10, 12])))
   if name in ('exponential_filter', 'horizontal_diffusion_filter'):
     p['top_exponent'] = expo
   else:
